@@ -1079,6 +1079,13 @@ class Analyzer:
                         if base is not None and (('cnt', pn[1], 0), base[0]) in st.acc:
                             ok = True
                             need = '%s (= %s - %d)' % (nv['n'], base[2], base[1])
+                    if need is None and not ok and nv.get('k') not in ('ref',):
+                        # a number of bytes read out of a record (a table entry's length): whether the guard in front asked for the
+                        # same number is a relation between two reads of memory, which this analysis does not keep
+                        self.__dict__.setdefault('unmodelled', []).append(
+                            '%s: %s compares %s bytes of the input, a number read from %s; that the guard in front asked for the same '
+                            'number is not followed by this analysis' % (self.fn.where(call), cn, expr_str(nv)[:30], expr_str(nv)[:30]))
+                        continue
                     self.site('BND1' if pn[0] == 'cur' else 'BND2', call,
                               '%s reads %s byte(s) of the input at %s' % (cn, need, expr_str(strip_casts(args[j]))[:40]), ok,
                               'proved avail >= %s' % (av[0] if av is not None and av[0] > NEG else 'nothing'),
